@@ -31,7 +31,7 @@ def cases(draw):
     for s in range(nsub):
         k = draw(st.integers(1, 6 if nsub == 1 else 4))
         msgs = [{"kind": draw(st.sampled_from(["req", "ans", "generic-req"])),
-                 "size": draw(st.sampled_from([0, 1, 5, 100, 3000, 90000]))} for _ in range(k)]
+                 "size": draw(st.sampled_from([0, 1, 5, 100, 3000, 0, 1, 5, 100, 3000, 90000, 90000, 90000, 262100, 270000]))} for _ in range(k)]
         subs.append({"msgs": msgs, "api": draw(st.sampled_from(["send_message", "send_message", "send_messages"]))})
     pw = draw(st.sampled_from(["full", "full", "tiny", "random", "boundary"]))
     sizes = []
@@ -53,7 +53,8 @@ def build_msgs(case):
     for si, sub in enumerate(case["subs"]):
         lst = []
         for mi, m in enumerate(sub["msgs"]):
-            pay = bytes((si * 7 + mi + j) % 253 for j in range(m["size"]))
+            off = (si * 7 + mi) % 253
+            pay = (bytes(range(253)) * (m["size"] // 253 + 2))[off:off + m["size"]]
             avps = [C("SessionIdAVP")(f"sub{si};{mi};0".encode()), C("OriginHostAVP")(LOCAL["host"]), C("OriginRealmAVP")(LOCAL["realm"]),
                     C("DestinationRealmAVP")(PEER["realm"])]
             if pay:
@@ -202,6 +203,8 @@ def _collect(shard, seed, n):
             f.add("targeted-delay")
         if any(m["size"] >= 90000 for s in case["subs"] for m in s["msgs"]):
             f.add("crosses-send-buffer-limit")
+        if any(m["size"] >= 262100 for s in case["subs"] for m in s["msgs"]):
+            f.add("single-message-above-batch-limit")
         nt = (len(case["subs"]) >= 2 or "partial-write-happened" in f or "inbound-traffic" in f) and "prefix-with-switch" in f
         col.record(case, vs, nontrivial=nt, classes=sorted(f))
         for k in ("steps", "switches", "line_switches"):
@@ -216,7 +219,7 @@ def main(ctx):
     for path, rec in common.load_replays(PID):
         col.record(rec["case"], run_case(rec["case"]), nontrivial=True, classes=["replay"])
     ctx.required_classes = ["partial-write-happened", "inbound-traffic", "prefix-with-switch", "preempted-at-source-line", "submitters=2",
-                            "submitters=3", "role=client", "role=server", "crosses-send-buffer-limit"]
+                            "submitters=3", "role=client", "role=server", "crosses-send-buffer-limit", "single-message-above-batch-limit"]
     ctx.assumptions = ["controlled world (see C04); partial writes accept >= 1 byte; BlockingIOError is never injected on a socket the "
                        "selector reported writable", "only DWAs owed for injected DWRs are filtered out as base traffic"]
     ctx.shrinker = lambda sig, case: common.hyp_shrink(cases(), lambda c: any(v.sig == sig for v in run_case(c)), ctx.seed, n=200, budget_s=60) or case
